@@ -50,6 +50,8 @@ type Frame struct {
 	c           *Contract
 	top         bool
 	anchors     bool                 // a callee executed in place by name ("option inline-callees"): its calls are anchors of the top contract's cuts
+	ownedHead   map[*ssa.Phi]bool // option owned-loop-slices: whether the loop variable shared memory with the caller at loop entry
+	ownedSeen   bool
 	sliceHead   map[*ssa.Phi]*SliceV // option loop-slice-windows: the value of each re-sliced loop variable at loop entry
 	depth       int
 	ipdom       map[*ssa.BasicBlock]*ssa.BasicBlock
@@ -1161,6 +1163,12 @@ func (fr *Frame) run(b, pred *ssa.BasicBlock, st *State, stop *ssa.BasicBlock) (
 						p, ok := ins.(*ssa.Phi)
 						if !ok {
 							break
+						}
+						if vis, tracked := fr.ownedHead[p]; tracked && !vis {
+							if cur, isS := st.env()[p].(*SliceV); isS && cur.Obj != nil && (cur.Obj.Entry || cur.Obj.Escaped) {
+								fr.oblige(st, fmt.Sprintf("%s:preserve:owned:%s", fr.loopLabel(b), phiName(p)), fr.v.F.False(),
+									"a slice variable that was private at loop entry does not come to share memory with the caller during an iteration")
+							}
 						}
 						if hd := fr.sliceHead[p]; hd != nil {
 							if cur, isS := st.env()[p].(*SliceV); isS && !(cur.Obj == hd.Obj && samePath(cur.Path, hd.Path)) {
